@@ -35,6 +35,8 @@ struct Consumer {
     cs: Rc<ConsumerShared>,
     /// Flag of the waker given to the last poll, if that poll returned Pending.
     armed: Option<Arc<Flag>>,
+    /// the task's one waker (same_waker consumers)
+    own_waker: Option<(Arc<Flag>, std::task::Waker)>,
     ever_polled: bool,
     last_ready: bool,
     done: bool,
@@ -517,7 +519,7 @@ impl Rest {
         if spec.chain.len() >= 3 {
             self.count("probe.chain_depth_3");
         }
-        let c = Consumer { id, spec: spec.clone(), batched, outer: Some(outer), taps, groups, cs, armed: None, ever_polled: false, last_ready: false, done: false, twin, polls: 0 };
+        let c = Consumer { id, spec: spec.clone(), batched, outer: Some(outer), taps, groups, cs, armed: None, own_waker: None, ever_polled: false, last_ready: false, done: false, twin, polls: 0 };
         self.consumers.push(c);
         // the initial values of every stage are its view of the stage below (nothing announced yet)
         self.promote(id);
@@ -595,7 +597,9 @@ impl Rest {
                 self.violate(&ps, "pending_after_source_end", k as i32 + 1, format!("boundary {k} has ended but the consumer's stream reports Pending"));
                 return;
             }
-            if k + 1 < n && (t.epoch != epoch || t.last != PollRes::Pending) {
+            // (with one and the same waker an input that is still registered need not be re-polled in
+            // principle, so this oracle is evaluated for fresh-waker consumers only)
+            if !c.spec.same_waker && k + 1 < n && (t.epoch != epoch || t.last != PollRes::Pending) {
                 drop(t);
                 let mut ps = above;
                 ps.push("C14");
@@ -607,7 +611,7 @@ impl Rest {
             for (s, li) in &g.stages {
                 if let Some(i) = li {
                     let lt = self.limits.writers[*i].tap.borrow();
-                    if lt.epoch != epoch || !(lt.last == PollRes::Pending || lt.last == PollRes::End) {
+                    if !c.spec.same_waker && (lt.epoch != epoch || !(lt.last == PollRes::Pending || lt.last == PollRes::End)) {
                         drop(lt);
                         self.violate(&[s.prop(), "C14"], "pending_without_polling_limit", -1, format!("{:?} reported Pending although its limit stream was not polled to Pending/end with the current waker", s));
                         return;
@@ -660,7 +664,15 @@ impl Rest {
         self.env.borrow_mut().epoch += 1;
         let was_armed_unwoken = self.consumers[j].armed_unwoken();
         let was_woken = self.consumers[j].armed.as_ref().map_or(false, |f| f.is_woken());
-        let (flag, wk) = wake::fresh();
+        let same = self.consumers[j].spec.same_waker;
+        let (flag, wk) = if same {
+            let c = &mut self.consumers[j];
+            let (f, w) = c.own_waker.get_or_insert_with(wake::fresh).clone();
+            f.clear();
+            (f, w)
+        } else {
+            wake::fresh()
+        };
         let mut cx = Context::from_waker(&wk);
         let c = &mut self.consumers[j];
         c.polls += 1;
